@@ -108,7 +108,7 @@ Fixpoint class_points (r : regex) : list N :=
   | RChar a => [a; (a + 1)%N]
   | RCharSet l =>
       flat_map (fun x => match x with CChar a => [a; (a + 1)%N] | CRange a b => [a; (b + 1)%N] end) l
-  | RAny => [0%N]
+  | RAny => [0%N; (CHAR_MAX + 1)%N]
   | RBuiltin n => match lookup_builtin n benv with Some t => breakpoints t | None => [] end
   | ROr a b | RDiff a b => class_points a ++ class_points b
   | _ => []
